@@ -24,6 +24,11 @@ fn gen_line(rng: &mut Rng, r: &[u8]) -> Vec<u8> {
             v.push(b' ');
         }
     }
+    // the entire line is the replacement: trailing blanks belong to it
+    if rng.chance(1, 5) {
+        let t: &[u8] = *rng.pick(&[&b" "[..], &b"  "[..], &b"\t"[..], &b" \t "[..], &b"\r"[..]]);
+        v.extend_from_slice(t);
+    }
     v
 }
 
